@@ -91,16 +91,28 @@ fn members(a: &ast::Aidl) -> String {
 fn imports_json(v: &[ast::Import]) -> String {
     format!("[{}]", v.iter().map(|i| format!("{{\"path\":{},\"name\":{},\"sym\":{},\"full\":{}}}", esc(&i.path), esc(&i.name), range(&i.symbol_range), range(&i.full_range))).collect::<Vec<_>>().join(","))
 }
+fn types_walk(a: &ast::Aidl) -> String {
+    let mut v = Vec::new();
+    traverse::walk_types(a, |t| v.push(range(&t.symbol_range)));
+    format!("[{}]", v.join(","))
+}
+fn methods_walk(a: &ast::Aidl) -> String {
+    let mut v = Vec::new();
+    traverse::walk_methods(a, |m| v.push(esc(&m.name)));
+    let mut w = Vec::new();
+    traverse::walk_args(a, |m, x| w.push(format!("[{},{}]", esc(&m.name), range(&x.symbol_range))));
+    format!("{{\"methods\":[{}],\"args\":[{}]}}", v.join(","), w.join(","))
+}
 fn ast_json(a: &ast::Aidl) -> String {
     let (tag, name, oneway, doc, sym, full) = match &a.item {
         ast::Item::Interface(i) => ("interface", &i.name, i.oneway, &i.doc, &i.symbol_range, &i.full_range),
         ast::Item::Parcelable(p) => ("parcelable", &p.name, false, &p.doc, &p.symbol_range, &p.full_range),
         ast::Item::Enum(e) => ("enum", &e.name, false, &e.doc, &e.symbol_range, &e.full_range),
     };
-    format!("{{\"package\":{},\"package_sym\":{},\"package_full\":{},\"key\":{},\"imports\":{},\"declared\":{},\"item\":{{\"tag\":{},\"name\":{},\"oneway\":{},\"doc\":{},\"sym\":{},\"full\":{}}},\"members\":{},\"symbols_all\":{},\"symbols_items\":{},\"symbols_elements\":{}}}",
+    format!("{{\"package\":{},\"package_sym\":{},\"package_full\":{},\"key\":{},\"imports\":{},\"declared\":{},\"item\":{{\"tag\":{},\"name\":{},\"oneway\":{},\"doc\":{},\"sym\":{},\"full\":{}}},\"members\":{},\"symbols_all\":{},\"symbols_items\":{},\"symbols_elements\":{},\"types_walk\":{},\"walkers\":{}}}",
         esc(&a.package.name), range(&a.package.symbol_range), range(&a.package.full_range), esc(&a.get_key()), imports_json(&a.imports), imports_json(&a.declared_parcelables),
         esc(tag), esc(name), oneway, opt(doc), range(sym), range(full), members(a),
-        symbols(a, SymbolFilter::All), symbols(a, SymbolFilter::ItemsOnly), symbols(a, SymbolFilter::ItemsAndItemElements))
+        symbols(a, SymbolFilter::All), symbols(a, SymbolFilter::ItemsOnly), symbols(a, SymbolFilter::ItemsAndItemElements), types_walk(a), methods_walk(a))
 }
 fn result_json(r: &ParseFileResult<String>) -> String {
     format!("{{\"id\":{},\"ast\":{},\"diags\":{}}}", esc(&r.id), match &r.ast { Some(a) => ast_json(a), None => "null".into() }, diags(&r.diagnostics))
